@@ -45,6 +45,38 @@ func (n *Node) StoreHashes() map[string]string {
 	return out
 }
 
+// DumpStore returns every key/value pair of a module store (hex): the committed store, or - pending - the state a
+// node holds after InitChain before anything is committed.
+func (n *Node) DumpStore(name string, pending bool) (out map[string]string, err error) {
+	defer func() {
+		if r := recover(); r != nil {
+			err = fmt.Errorf("panic while reading store %s: %v", name, r)
+		}
+	}()
+	k := n.App.GetKey(name)
+	if k == nil {
+		return nil, fmt.Errorf("no store %q", name)
+	}
+	out = map[string]string{}
+	var it interface {
+		Valid() bool
+		Next()
+		Key() []byte
+		Value() []byte
+		Close() error
+	}
+	if pending {
+		it = n.App.BaseApp.NewContext(false).KVStore(k).Iterator(nil, nil)
+	} else {
+		it = n.App.CommitMultiStore().GetKVStore(k).Iterator(nil, nil)
+	}
+	defer it.Close()
+	for ; it.Valid(); it.Next() {
+		out[fmt.Sprintf("%x", it.Key())] = fmt.Sprintf("%x", it.Value())
+	}
+	return out, nil
+}
+
 // Snapshot exports the committed state through ExportAppStateAndValidators.
 func (n *Node) Snapshot() (*Snap, error) {
 	if n.App.LastBlockHeight() == 0 {
